@@ -240,6 +240,13 @@ func (it *TxnIterator) advance() {
 			}
 		}
 		if !it.materializeEntry(entry, cf, userKey, version) {
+			// Forward iteration meets the newest visible version of a key first. If
+			// that version is a tombstone (or expired) the key is not live, so its
+			// older versions must not be yielded either. (Backwards the versions
+			// arrive oldest first and this shortcut does not apply.)
+			if !it.opt.AllVersions && !it.opt.Reverse {
+				it.lastKey = append(it.lastKey[:0], userKey...)
+			}
 			it.iitr.Next()
 			continue
 		}
